@@ -17,7 +17,10 @@ def run(ck):
              dict(w=320, h=256, n=8, decode=0, content=1, **{'f:enc_mode': 8, 'f:qp': 35}),
              dict(w=200, h=136, n=9, decode=0, content=5, **{'f:enc_mode': 8, 'f:screen_content_mode': 1}),
              dict(w=384, h=128, n=9, decode=0, content=0, **{'f:enc_mode': 8, 'f:tile_columns': 1}),
-             dict(w=256, h=256, n=6, decode=0, content=2, **{'f:enc_mode': 6})]
+             dict(w=256, h=256, n=6, decode=0, content=2, **{'f:enc_mode': 6}),
+             # >= 10 superblocks wide / >= 6 superblock rows: sizes at which the segment grids really differ between core counts
+             dict(w=704, h=64, n=8, decode=0, content=6, **{'f:enc_mode': 8}),
+             dict(w=128, h=448, n=8, decode=0, content=6, **{'f:enc_mode': 8})]
     if ck.tier == 'thorough':
         bases += [dict(w=640, h=384, n=8, decode=0, content=c, **{'f:enc_mode': p}) for c in (1, 2) for p in (4, 8)]
     variants = [('1', {'f:logical_processors': 1}), ('2', {'f:logical_processors': 2}), ('3', {'f:logical_processors': 3}), ('4', {'f:logical_processors': 4}),
@@ -25,7 +28,7 @@ def run(ck):
                 ('4 unpin 0', {'f:logical_processors': 4, 'f:unpin': 0}), ('4 socket 0', {'f:logical_processors': 4, 'f:target_socket': 0, 'f:unpin': 0})]
     n = meta.compare(ck, binp, stamp, bases, variants, 'logical_processors', timeout=240, jobs=6)
     ck.cov['traces_validated_against_impl'] = n * len(variants)
-    ck.cov['rule'] = '5 contents/sizes/tool sets x logical processors 0,1,2,3,4,8,16, pinned/unpinned, socket 0; CQP (one-pass VBR/CVBR are known to be schedule dependent: finding owned by C04)'
+    ck.cov['rule'] = '7 contents/sizes/tool sets x logical processors 0,1,2,3,4,8,16, pinned/unpinned, socket 0; CQP (one-pass VBR/CVBR are known to be schedule dependent: finding owned by C04)'
     ck.sample(dict(base=e2e.describe(bases[0]), variants=[v[0] for v in variants]))
     br = ck.broken_obligations()
     if br and not ck.violations:
